@@ -422,6 +422,68 @@ pub fn texts(tier: &str, seed: u64, mut f: impl FnMut(&str, &str)) {
         let nl = if i % 7 == 0 { "\r\n" } else { "\n" };
         f(&(lines.join(nl) + nl), &format!("grammar-level{}", o.level));
     }
+    // records in the wrong section: every section in turn receives the records of every other
+    // section, the keys old versions of the format kept elsewhere (editor settings inside
+    // [General], ...) and values outside the editor's ranges; then the regular sections follow
+    for t in misplaced_record_texts() {
+        f(&t, "misplaced-records");
+    }
+}
+
+pub const RECORD_POOL: [(&str, &[&str]); 8] = [
+    (
+        "General",
+        &[
+            "AudioFilename: a.mp3", "Mode: 2", "SampleSet: Soft", "StackLeniency: 0.3", "Countdown: 2", "CountdownOffset: 3",
+            "SpecialStyle: 1", "EpilepsyWarning: 1", "EditorBookmarks: 1000,2000", "EditorDistanceSpacing: 1.7", "AudioHash: abc",
+            "SkinPreference: x", "StoryFireInFront: 1", "UseSkinSprites: 1", "AlwaysShowPlayfield: 1", "OverlayPosition: Above",
+            "TimelineZoom: 2.5", "PreviewTime: 4321", "AudioLeadIn: 250",
+        ],
+    ),
+    ("Editor", &["Bookmarks: 5,6", "DistanceSpacing: 1.9", "BeatDivisor: 8", "GridSize: 16", "TimelineZoom: 3.1"]),
+    ("Metadata", &["Title: T", "TitleUnicode: TU", "Creator: C", "Version: V", "BeatmapID: 77", "BeatmapSetID: 88", "Tags: a b", "Source: S"]),
+    (
+        "Difficulty",
+        &[
+            "HPDrainRate: 3", "CircleSize: 12", "OverallDifficulty: 11", "ApproachRate: 11", "SliderMultiplier: 2.2", "SliderTickRate: 2",
+            "CircleSize: -1", "HPDrainRate: -3", "ApproachRate: -2", "CircleSize: 0.5",
+        ],
+    ),
+    ("Events", &["0,0,\"bg.jpg\",0,0", "2,100,200", "Video,0,\"v.mp4\"", "4,Background,Centre,\"sp.png\",320,240"]),
+    ("TimingPoints", &["0,500,4,1,0,100,1,0", "100,-50,4,2,1,60,0,1"]),
+    ("Colours", &["Combo1 : 1,2,3", "SliderBorder : 4,5,6", "SliderTrackOverride : 7,8,9"]),
+    ("HitObjects", &["256,192,1000,1,0,0:0:0:0:", "100,100,2000,2,0,L|200:100,1,100", "256,192,3000,12,0,3500,0:0:0:0:"]),
+];
+
+pub fn misplaced_record_texts() -> Vec<String> {
+    let mut v = vec![];
+    for lead_mode in [None, Some(1), Some(3)] {
+        for (target, _) in RECORD_POOL {
+            let mut t = String::from("osu file format v14\n\n");
+            if let Some(m) = lead_mode {
+                t.push_str(&format!("[General]\nMode: {m}\n\n"));
+            }
+            t.push_str(&format!("[{target}]\n"));
+            for (_, recs) in RECORD_POOL {
+                for r in recs.iter() {
+                    t.push_str(r);
+                    t.push('\n');
+                }
+            }
+            for (sec, recs) in RECORD_POOL {
+                if sec == target {
+                    continue;
+                }
+                t.push_str(&format!("\n[{sec}]\n"));
+                for r in recs.iter().take(3) {
+                    t.push_str(r);
+                    t.push('\n');
+                }
+            }
+            v.push(t);
+        }
+    }
+    v
 }
 
 pub fn cases_for(_entry: &str, tier: &str, seed: u64, out: &mut Out) {
